@@ -6,9 +6,11 @@ import (
 	"flag"
 	"fmt"
 	"os"
+	"runtime"
 	"sort"
 	"strconv"
 	"strings"
+	"sync"
 	"time"
 
 	"verifharness/internal/model"
@@ -59,10 +61,93 @@ var engines = map[string]*Engine{}
 
 func register(e *Engine) { engines[e.Name] = e }
 
-// watchdog aborts the process when a single real-code call does not return (hang = violation).
-var watchdogCh = make(chan string, 1)
+// Every call into the real code goes through guard. The calls in flight are registered so that the
+// watchdog (startWatchdog) can tell a call that does not return, or that allocates without bound, from a
+// slow engine: such a call is a violation in itself ("returns normally"), reported with the input.
+var (
+	inflightMu sync.Mutex
+	inflight   = map[int64]inflightCall{}
+	inflightID int64
+)
+
+type inflightCall struct {
+	what  string
+	start time.Time
+}
+
+func guardEnter(what string) int64 {
+	inflightMu.Lock()
+	inflightID++
+	id := inflightID
+	inflight[id] = inflightCall{what, time.Now()}
+	inflightMu.Unlock()
+	return id
+}
+
+func guardLeave(id int64) {
+	inflightMu.Lock()
+	delete(inflight, id)
+	inflightMu.Unlock()
+}
+
+// startWatchdog: a real-code call in flight for longer than VERIF_HANG_S seconds (default 30), or the heap
+// growing beyond VERIF_HEAP_GB (default 12) during such a call, ends the engine with a violation naming the
+// protocol line being evaluated; the result file is written before the process exits (a spinning goroutine
+// cannot be stopped from inside the process).
+func startWatchdog(ctx *Ctx, res *report.Result, finish func()) (stop func()) {
+	hang := 30 * time.Second
+	if v, err := strconv.Atoi(os.Getenv("VERIF_HANG_S")); err == nil && v > 0 {
+		hang = time.Duration(v) * time.Second
+	}
+	heapGB := 12
+	if v, err := strconv.Atoi(os.Getenv("VERIF_HEAP_GB")); err == nil && v > 0 {
+		heapGB = v
+	}
+	stopped := make(chan struct{})
+	go func() {
+		for tick := 0; ; tick++ {
+			select {
+			case <-stopped:
+				return
+			case <-time.After(100 * time.Millisecond):
+			}
+			var worst inflightCall
+			inflightMu.Lock()
+			for _, c := range inflight {
+				if worst.what == "" || c.start.Before(worst.start) {
+					worst = c
+				}
+			}
+			inflightMu.Unlock()
+			if worst.what == "" {
+				continue
+			}
+			why := ""
+			if d := time.Since(worst.start); d > hang {
+				why = fmt.Sprintf("%s has not returned after %s", worst.what, d.Round(time.Second))
+			} else if tick%5 == 0 {
+				var ms runtime.MemStats
+				runtime.ReadMemStats(&ms)
+				if ms.HeapAlloc > uint64(heapGB)<<30 {
+					why = fmt.Sprintf("%s has allocated %d MiB and is still running", worst.what, ms.HeapAlloc>>20)
+				}
+			}
+			if why == "" {
+				continue
+			}
+			line := ctx.current
+			res.Violate(report.Violation{Property: "*", Oracle: "returns-normally", Key: "hang:" + worst.what, Detail: "the call does not return: " + why, Line: line})
+			res.Fail("engine aborted: " + why + " at: " + line)
+			finish()
+			os.Exit(1)
+		}
+	}()
+	return func() { close(stopped) }
+}
 
 func guard[T any](what string, f func() T) (res T, panicked string) {
+	id := guardEnter(what)
+	defer guardLeave(id)
 	defer func() {
 		if r := recover(); r != nil {
 			panicked = fmt.Sprint(r)
@@ -119,6 +204,12 @@ func main() {
 				}
 			}
 		}
+		stopWatchdog := startWatchdog(ctx, res, func() {
+			if *out != "" {
+				_ = res.Write(*out + "." + name + ".json")
+			}
+			fmt.Printf("engine=%s aborted by the watchdog violations=%d\n", name, len(res.Violations))
+		})
 		done := make(chan struct{})
 		go func() {
 			defer close(done)
@@ -133,6 +224,7 @@ func main() {
 		case <-time.After(limit):
 			res.Fail("engine did not finish within its time limit (possible hang in the real code at: " + ctx.current + ")")
 		}
+		stopWatchdog()
 		// model side
 		lines := make([]string, 0, len(ctx.cases))
 		idx := []int{}
